@@ -87,6 +87,26 @@ def o131(ctx):
             a0 = ax[i % 3]
             env[a0.sym.args[0]] = env[CEN.cols[i % 3].args[0]] + (k_ + 1 if i % 9 == 2 else k_)
             env["r"] = k_ + 0.5
+    # an axis voxel a relative eps outside / inside the surface (real radii): <= r with no tolerance
+    for j, eps in enumerate((1e-2, 1e-4, 1e-6, 1e-8, 1e-10, 1e-12)):
+        for sign in (1.0, -1.0):
+            env = dict(envs[(5 * j) % len(envs)])
+            k = j % 3
+            for A, c in zip(ax, CEN.cols):
+                env[A.sym.args[0]] = env[c.args[0]]
+            off = float(rng.integers(2, 9))
+            env[ax[k].sym.args[0]] = env[CEN.cols[k].args[0]] + off
+            env["r"] = off * (1.0 - sign * eps)
+            envs.append(env)
+    # a sphere larger than the box, centred at a corner / on a face: the far corner is still outside (radius between half and the full diagonal)
+    for j, frac in enumerate((0.5, 0.55, 0.7, 0.9, 1.0, 1.2)):
+        env = dict(envs[(11 * j + 2) % len(envs)])
+        ns_ = [float(env[tm.symbols(A.n)[0]]) for A in ax]
+        for k_, (A, c) in enumerate(zip(ax, CEN.cols)):
+            env[c.args[0]] = 0.0 if (j + k_) % 3 else float(int(ns_[k_]) // 2)
+            env[A.sym.args[0]] = ns_[k_] - 1.0
+        env["r"] = float(np.ceil(frac * float(np.sqrt(sum(n_ * n_ for n_ in ns_)))))
+        envs.append(env)
     decide(ctx, q, v, want, envs, "sphere: distance <= r", m, fn)
     # ---- cylinder
     q = CM + "cylindrical_mask"
@@ -107,6 +127,17 @@ def o131(ctx):
         if i % 4 == 1:  # on the top / bottom face
             hh = int(env["h"]) // 2
             env[ax[2].sym.args[0]] = env["c2"] + float(rng.choice([-hh, hh, hh + 1, -hh - 1]))
+    # every height 1..16 (odd and even, both residues mod 4), on the axis: the last slab inside and the first one outside, on both sides
+    for h_ in range(1, 17):
+        for dz in (h_ // 2, h_ // 2 + 1, -(h_ // 2), -(h_ // 2) - 1):
+            env = dict(envs[h_ % len(envs)])
+            for A in ax:
+                for nm in tm.symbols(A.n):
+                    env[nm] = 40.0
+            env["c0"], env["c1"], env["c2"] = 20.0, 19.0, 20.0
+            env["h"], env["r"] = float(h_), 5.0
+            env[ax[0].sym.args[0]], env[ax[1].sym.args[0]], env[ax[2].sym.args[0]] = 20.0, 19.0, 20.0 + dz
+            envs.append(env)
     decide(ctx, q, v, want, envs, "cylinder: planar distance <= r and |k - cz| <= floor(h/2)", m, fn)
     # blurred outwards: the solid given to the Gaussian is grown by ceil(5 sigma) in radius and half-height
     it, v = run_mask(ctx, "cylindrical_mask", {"mask_size": SIZE, "radius": P("r"), "height": P("h"), "center": CEN,
@@ -176,6 +207,29 @@ def o132(ctx):
             n_ = int(env[tm.symbols(A.n)[0]])
             env[A.sym.args[0]] = float(min(max(int(env[f"c{k_}"]) + int(rng.integers(-3, 4)), 0), n_ - 1))
     envs += thick
+    # inner radius exactly zero (t = 2r): the inner solid is the centre voxel, which is not part of the shell; and just around it
+    for r_ in (1.0, 2.0, 3.0, 4.0, 5.0):
+        for dt_ in (0.0, 1.0, -1.0):
+            for at_centre in (True, False):
+                env = dict(thick[int(r_) % len(thick)])
+                env["r"], env["t"] = r_, 2.0 * r_ + dt_
+                if env["t"] <= 0:
+                    continue
+                for k_, A in enumerate(ax):
+                    n_ = int(env[tm.symbols(A.n)[0]])
+                    env[A.sym.args[0]] = env[f"c{k_}"] if at_centre or k_ else float(min(int(env[f"c{k_}"]) + 1, n_ - 1))
+                envs.append(env)
+    # an outer solid larger than half the box diagonal, centred at a corner: the far corner is outside both solids
+    for j in range(6):
+        env = dict(envs[(13 * j + 3) % len(envs)])
+        ns_ = [float(env[tm.symbols(A.n)[0]]) for A in ax]
+        for k_, A in enumerate(ax):
+            env[f"c{k_}"] = 0.0 if (j + k_) % 3 else float(int(ns_[k_]) // 2)
+            env[A.sym.args[0]] = ns_[k_] - 1.0
+        half_diag = 0.5 * float(np.sqrt(sum(n_ * n_ for n_ in ns_)))
+        env["t"] = 2.0
+        env["r"] = float(np.ceil(half_diag)) - 1.0 + float(j // 3)
+        envs.append(env)
     decide(ctx, q, v, want, envs, "spherical shell = solid(r + t/2) - solid(r - t/2)", m, fn)
     # ellipsoid shell: outer AND NOT inner with radii +- thickness/2 (structure of the combination only)
     q2 = CM + "ellipsoid_shell_mask"
@@ -380,6 +434,20 @@ def o135(ctx):
                 env[A.sym.args[0]] = env[f"c{j}"]
             env[ax[k].sym.args[0]] = env[f"c{k}"] + env[f"r{k}"] + 1  # one voxel beyond the semi-axis k
         envs.append(env)
+    # voxels a relative eps outside / inside the surface (the radii are real numbers: r_k = d / sqrt(1 +- eps) puts the axis voxel at
+    # offset d at sum = 1 +- eps): the membership test is <= 1 with no tolerance, at every scale
+    for j, eps in enumerate((1e-2, 1e-3, 1e-4, 1e-5, 1e-6, 1e-7, 1e-8, 1e-9, 1e-10, 1e-11)):
+        for sign in (1.0, -1.0):
+            env = dict(envs[(7 * j) % len(envs)])
+            k = j % 3
+            for i_, A in enumerate(ax):
+                env[A.sym.args[0]] = env[f"c{i_}"]
+            off = float(rng.integers(2, 9))
+            n_k = env[tm.symbols(ax[k].n)[0]]
+            env[f"c{k}"] = float(min(env[f"c{k}"], n_k - 1 - off)) if n_k - 1 - off >= 0 else 0.0
+            env[ax[k].sym.args[0]] = env[f"c{k}"] + off
+            env[f"r{k}"] = off / float(np.sqrt(1.0 + sign * eps))
+            envs.append(env)
     res = tm.equivalent(got, want, n=len(envs), extra_envs=envs, tol=1e-9, seed_tag=q, need=len(envs) // 2)
     ctx.count(len(envs), {"shape": "ellipsoid", "lattice points": len(envs), "equal": bool(res), "extracted": tm.show(v.term)[:200]})
     if not res:
@@ -403,4 +471,4 @@ def _obligations():
 
 
 def obligations():
-    return _obligations() + [labels_obligation("C13"), selectors_obligation("C13"), effects_obligation("C13"), plumbing_obligation("C13"), overrides_obligation("C13"), options_obligation("C13")]
+    return _obligations() + [labels_obligation("C13"), selectors_obligation("C13"), effects_obligation("C13"), plumbing_obligation("C13"), overrides_obligation("C13"), options_obligation("C13"), handlers_obligation("C13")]
